@@ -569,6 +569,23 @@ fn gen(prop: &str, tier: &str, seed: u64) -> Vec<String> {
             }
             v.push(format!("fsiz_enc\t{}", hex(&z)));
         }
+        // exact powers of 256 and their neighbours (seeded C15-7: a byte count taken as ceil(log256 n) is one short
+        // exactly there, and the size reads back as 0), bare and behind leading zero bytes
+        for k in 1..16usize {
+            let mut pw = vec![1u8];
+            pw.extend(std::iter::repeat(0u8).take(k));
+            let mut plus = pw.clone();
+            *plus.last_mut().unwrap() = 1;
+            for b in [pw, plus, vec![0xffu8; k]] {
+                v.push(format!("fsiz_dec\t{}", hex(&b)));
+                v.push(format!("fsiz_enc\t{}", hex(&b)));
+                if b.len() < 16 {
+                    let mut z = vec![0u8; 16 - b.len()];
+                    z.extend_from_slice(&b);
+                    v.push(format!("fsiz_enc\t{}", hex(&z)));
+                }
+            }
+        }
         for _ in 0..300 * scale {
             let l = r.below(20) as usize;
             let mut b = r.bytes(l);
